@@ -31,11 +31,24 @@ func buildOne(tmp string, i int, custom bool) (gowarc.WarcRecord, error) {
 	if custom {
 		opts = append(opts, gowarc.WithBufferMaxMemBytes(16), gowarc.WithStrictValidation())
 	}
-	rb := gowarc.NewRecordBuilder(gowarc.Response, opts...)
+	// the three block kinds take different paths through the marshaler
+	var rb gowarc.WarcRecordBuilder
+	switch i % 3 {
+	case 0:
+		rb = gowarc.NewRecordBuilder(gowarc.Response, opts...)
+		rb.AddWarcHeader("Content-Type", "application/http")
+		rb.WriteString(fmt.Sprintf("HTTP/1.1 200 OK\r\nContent-Type: text/plain\r\n\r\nbody %d with some more bytes to spill", i))
+	case 1:
+		rb = gowarc.NewRecordBuilder(gowarc.Resource, opts...)
+		rb.AddWarcHeader("Content-Type", "text/plain")
+		rb.WriteString(fmt.Sprintf("plain resource %d with some more bytes to spill into the file part", i))
+	default:
+		rb = gowarc.NewRecordBuilder(gowarc.Metadata, opts...)
+		rb.AddWarcHeader("Content-Type", "application/warc-fields")
+		rb.WriteString(fmt.Sprintf("via: http://example.com/%d\r\nhopsFromSeed: LLL\r\n", i))
+	}
 	rb.AddWarcHeader("WARC-Date", "2021-05-06T07:08:09Z")
-	rb.AddWarcHeader("Content-Type", "application/http")
 	rb.AddWarcHeader("WARC-Target-URI", fmt.Sprintf("http://example.com/%d", i))
-	rb.WriteString(fmt.Sprintf("HTTP/1.1 200 OK\r\nContent-Type: text/plain\r\n\r\nbody %d with some more bytes to spill", i))
 	rec, _, err := rb.Build()
 	return rec, err
 }
